@@ -42,6 +42,21 @@ def replay_e1(p):
 def replay_e2(p):
     from . import e2
     case = p.get("case") or {}
+    if p.get("key") == "sliced-mask-differs":
+        ce = p["counterexample"]
+        j = dict(op="maskdiff", slices=case["slices"], bytes=ce.get("path") or [], tokens=[ce["bytes"]])
+        if "schema" in case:
+            j.update(kind="json", schema=case["schema"])
+        else:
+            j.update(kind="lark", text=case["text"])
+        r = e2.run_jobs([j])[0]
+        print("engine with slices vs engine without, after the byte prefix %r, vocabulary = single bytes + token %r:" % (bytes(ce.get("path") or []), bytes(ce["bytes"])))
+        print(json.dumps({k: r.get(k) for k in ("ok", "diff", "slices_applied", "error")}, default=str)[:800])
+        if r.get("ok") and r.get("diff"):
+            print("REPRODUCED: the masks differ on the current tree")
+            return 1
+        print("not reproduced on the current tree (masks agree)")
+        return 0
     kind = "json" if ("schema" in p or "schema" in case) else (p.get("grammar_kind") or case.get("kind") or "lark")
     job = dict(op="replay", kind=kind)
     if kind == "json":
